@@ -16,3 +16,9 @@ namespace Rex
 /-- Python `xs[-w:]` for `w > 0`: the last `w` elements (all of them if there are fewer). -/
 def lastN {β : Type} (w : Nat) (xs : List β) : List β := xs.drop (xs.length - w)
 end Rex
+
+namespace Rex
+/-- Python `int(a // b)` on floats: the floor of the quotient, as an integer. -/
+class FloorDiv (α : Type) where
+  fdiv : α → α → Int
+end Rex
